@@ -37,7 +37,7 @@ def generate():
             "use crate::shim::client::{Client, ChunkAddr, DataAddr, CHUNK_DOWNLOAD_BATCH_SIZE};\n"
             "use crate::shim::self_encryption::{decrypt_full_set, DataMap, EncryptedChunk};\n"
             "use crate::self_encryption::DataMapLevel;\n"
-            "use bytes::Bytes;\nuse futures::stream::{FuturesUnordered, StreamExt};\nuse libp2p::kad::Quorum;\n"
+            "use bytes::Bytes;\nuse futures::stream::{FuturesUnordered, StreamExt};\n#[allow(unused_imports)]\nuse futures::{FutureExt as _, TryFutureExt as _, TryStreamExt as _};\nuse libp2p::kad::Quorum;\n"
             "#[allow(unused_imports)]\nuse std::collections::{BTreeMap, BTreeSet, HashMap, HashSet, VecDeque};\nuse std::future::Future;\nuse xor_name::XorName;\n"
             "#[allow(unused_imports)]\nuse libp2p::kad::{Record, RecordKey};\n\n"
             + g + "\n\nimpl Client {\n" + u + "\n\n" + p + "\n}\n\n" + f + "\n"
